@@ -47,6 +47,7 @@ func init() {
 		Run:          runC07,
 		Required:     []string{"frame_inputs", "dial_reply_inputs", "proxy_reply_inputs", "header_inputs", "alloc_checks"},
 		CaseTimeoutS: 1500,
+		BeatTimeoutS: 40,
 		Assumptions: []string{
 			"allocation bound: 1 MiB + 16 x (bytes received + bytes delivered to the application), measured with runtime.MemStats.TotalAlloc around each driver call in a single-goroutine worker",
 			"a hang is: more than 10000 transport reads after the input is exhausted, or the per-case watchdog firing twice (second time in isolation) with a library frame on the stack",
@@ -121,6 +122,13 @@ func DriveFrames(cfg byte, data []byte, checkAlloc bool) (sig, what string, nont
 	if cfg&0x20 != 0 && mode == 3 {
 		c.SetReadLimit(1 << 16)
 	}
+	if len(data)%4 == 1 {
+		// documented: a nil handler selects the default one
+		c.SetPongHandler(nil)
+		c.SetPingHandler(nil)
+		c.SetCloseHandler(nil)
+	}
+	abandon := len(data)%3 == 2 // streamed reads take one buffer-full and move on to the next message
 	delivered := 0
 	const cap = 4 << 20
 	buf := make([]byte, 4096)
@@ -142,6 +150,21 @@ func DriveFrames(cfg byte, data []byte, checkAlloc bool) (sig, what string, nont
 		var err error
 		switch mode {
 		case 0:
+			if cfg&0x10 != 0 {
+				// the one-call helper (it may size its buffer from what the header claims)
+				var p []byte
+				_, p, err = c.ReadMessage()
+				delivered += len(p)
+				nMsgs++
+				if err != nil {
+					if _, _, e2 := c.NextReader(); e2 == nil {
+						err = nil
+					}
+				} else {
+					nontrivial = true
+				}
+				break
+			}
 			// a failed message read does not end the connection: the application may
 			// go on to the next message (NextReader decides)
 			var r io.Reader
@@ -159,9 +182,9 @@ func DriveFrames(cfg byte, data []byte, checkAlloc bool) (sig, what string, nont
 				nontrivial = true
 				nMsgs++
 				for delivered < cap {
-					n, e := r.Read(buf)
+					n, e := r.Read(buf[:1+len(data)%len(buf)])
 					delivered += n
-					if e != nil {
+					if e != nil || abandon {
 						break
 					}
 				}
@@ -529,6 +552,7 @@ func runC07(ctx *core.Ctx, out *core.Out) {
 			if len(in) > 1<<16 {
 				in = in[:1<<16]
 			}
+			ctx.Beat()
 			sig, what, nt := DriveFrames(cfg, in, checkAlloc)
 			out.EvalH(core.Hash("f"+string(in))^uint64(cfg), nt)
 			out.Count("frame_inputs", 1)
@@ -541,6 +565,7 @@ func runC07(ctx *core.Ctx, out *core.Out) {
 			if !r.Chance(1, 8) {
 				in = mutate(r, in)
 			}
+			ctx.Beat()
 			sig, what, nt := DriveDialReply(cfg, in, checkAlloc)
 			out.EvalH(core.Hash("d"+string(in))^uint64(cfg), nt)
 			out.Count("dial_reply_inputs", 1)
@@ -553,6 +578,7 @@ func runC07(ctx *core.Ctx, out *core.Out) {
 			if !r.Chance(1, 6) {
 				in = mutate(r, in)
 			}
+			ctx.Beat()
 			sig, what, nt := DriveProxyReply(cfg, in, checkAlloc)
 			out.EvalH(core.Hash("p"+string(in))^uint64(cfg), nt)
 			out.Count("proxy_reply_inputs", 1)
@@ -566,6 +592,7 @@ func runC07(ctx *core.Ctx, out *core.Out) {
 				v = string(mutate(r, []byte(v)))
 			}
 			v2 := c07HeaderSeeds[r.Intn(len(c07HeaderSeeds))]
+			ctx.Beat()
 			sig, what, nt := DriveHeaders(cfg, v, v2, checkAlloc)
 			out.EvalH(core.Hash("h"+v+"|"+v2)^uint64(cfg), nt)
 			out.Count("header_inputs", 1)
@@ -619,7 +646,19 @@ func c07Fuzz(ctx *core.Ctx, out *core.Out, which int) {
 	cmd.Dir = work
 	cmd.Env = append(os.Environ(), "WSVERIF_FUZZ_SEED="+fmt.Sprint(ctx.Seed))
 	t0 := time.Now()
+	stopBeat := make(chan struct{})
+	go func() { // the fuzzing engine has its own per-input timeout (-test.timeout bounds the whole run)
+		for {
+			select {
+			case <-stopBeat:
+				return
+			case <-time.After(5 * time.Second):
+				ctx.Beat()
+			}
+		}
+	}()
 	ob, rerr := cmd.CombinedOutput()
+	close(stopBeat)
 	o := string(ob)
 	execs := int64(0)
 	for _, m := range fuzzExecsRe.FindAllStringSubmatch(o, -1) {
